@@ -25,12 +25,19 @@ def oab_tamper(res, tier, rng):
     ok, log, iexe = vlib.build_impl("asan")
     if not ok: res.oblige("C harness builds", False, log[-300:]); return
     scns = []; meta = []
-    for i in range(6 if tier == "quick" else 60):
+    for i in range(9 if tier == "quick" else 90):
         patch = i % 2 == 1
-        if patch: f, base, plain, lab = oablib.patch_case(rng)
+        from vlib import oabfmt
+        # a third of the files have blocks followed by padding larger than the input buffer used (the padding is skipped after the
+        # CRC has been compared: an error found there must survive the skipping)
+        padded = i % 3 == 2; bufsz = rng.choice([16, 64, 1000]) if padded else 4096
+        padf = (lambda ln: bufsz * rng.choice([2, 5]) + rng.choice([1, 300, 6000])) if padded else None
+        if patch and padded:
+            f, base, plain = oabfmt.build_patch(rng, [(rng.choice([0, 100, 3000]), rng.choice([100, 5000])) for _ in range(rng.randrange(1, 3))], pad_fn=padf); lab = "patch-padded"
+        elif patch: f, base, plain, lab = oablib.patch_case(rng)
         else:
-            from vlib import oabfmt
-            f, plain = oabfmt.build_full(rng, [rng.choice([100, 5000, 40000]) for _ in range(rng.randrange(1, 3))], kinds=None); base = None; lab = "full"
+            f, plain = oabfmt.build_full(rng, [rng.choice([100, 5000, 40000]) for _ in range(rng.randrange(1, 3))], kinds=None,
+                                         pad_fn=(lambda i_, ln: padf(ln)) if padded else None); base = None; lab = "full-padded" if padded else "full"
         hdr = 28 if patch else 16
         # walk the blocks
         pos = hdr; blocks = []
@@ -43,11 +50,11 @@ def oab_tamper(res, tier, rng):
         for (bp, cs) in blocks:
             for _ in range(6 if tier == "quick" else 12):
                 r = rng.random(); t = bytearray(f)
-                if r < 0.6: o = bp + 16 + rng.randrange(cs); kind = "payload"
+                if r < 0.6: o = bp + 16 + rng.randrange(min(cs, 90) if padded else cs); kind = "payload"     # padded blocks: stay inside the LZX data
                 elif r < 0.8: o = bp + (4 if patch else 8) + rng.randrange(4); kind = "dsize"
                 else: o = bp + 12 + rng.randrange(4); kind = "crc"
                 t[o] ^= rng.choice([1, 0x80, 0xFF, rng.randrange(1, 256)])
-                sc = oablib.scn_patch(bytes(t), base, 4096) if patch else oablib.scn_full(bytes(t), 4096)
+                sc = oablib.scn_patch(bytes(t), base, bufsz) if patch else oablib.scn_full(bytes(t), bufsz)
                 scns.append(sc); meta.append((lab, kind, o, plain))
     trs = scenario.run_scenarios(iexe, scns, timeout_each=60); nbad = 0
     for t, sc, (lab, kind, o, plain) in zip(trs, scns, meta):
